@@ -45,6 +45,7 @@ type loopInfo struct {
 }
 
 type Frame struct {
+	headHeap   map[int]Heap // loop ordinal -> heap at the start of an iteration
 	vc         *VC
 	fn         *ssa.Function
 	depth      int
@@ -1237,6 +1238,7 @@ func (fr *Frame) checkBackedge(li *loopInfo, from *ssa.BasicBlock, cond string, 
 	for i, cl := range fr.contract.LoopBack[li.ordinal] {
 		env := fr.envAt(from, true, nil)
 		env.heap = heap
+		env.lhead = fr.headHeap[li.ordinal]
 		t, err := env.evalBool(cl.Expr)
 		if err != nil {
 			vc.specError(fr.fn, cl, err)
@@ -1363,6 +1365,12 @@ func (fr *Frame) block(b *ssa.BasicBlock, ov *headOverride) {
 	}
 	if li != nil {
 		fr.enterLoop(li)
+		// the state an iteration starts from (after the havoc of the loop's modset and the assumed invariants):
+		// athead(e) in `loop#N backedge` clauses
+		if fr.headHeap == nil {
+			fr.headHeap = map[int]Heap{}
+		}
+		fr.headHeap[li.ordinal] = fr.heap.clone()
 	}
 	fr.panicked = false
 	for _, in := range b.Instrs {
